@@ -62,7 +62,7 @@ Proof.
   rewrite lines_irs_unlines by assumption. now apply nidx_lines_inverse.
 Qed.
 
-(* regression examples over the model for /repo a96f6ff95 and 5d07e29dc *)
+(* regression examples over the model for /repo a96f6ff95 and 3c48708b5 *)
 Example irs_regressions :
   lines_irs (B ";;") (B "a=1;;b=2;;") = [B "a=1"; B "b=2"]
   /\ lines_irs (B ";;") (B "a;b;;;c;") = [B "a;b"; B ";c;"]
